@@ -79,7 +79,16 @@ fn main() {
     let want = |case: &Value| replay.as_ref().map(|r| r == case).unwrap_or(true);
     let flags = [None, Some(true), Some(false)];
     let methods = ["", "a.b.C", "ä\"\\\n\u{0}"];
-    let params: Vec<Option<Value>> = vec![None, Some(Value::Null), Some(json!(1)), Some(json!("s")), Some(json!({"a": [1, {"b": null}], "": -0.5}))];
+    // (numbers at the edges of every JSON number class: i64, the u64 range above i64::MAX, floats that look like integers)
+    let params: Vec<Option<Value>> = vec![
+        None,
+        Some(Value::Null),
+        Some(json!(1)),
+        Some(json!("s")),
+        Some(json!({"a": [1, {"b": null}], "": -0.5})),
+        Some(json!(u64::MAX)),
+        Some(json!({"big": u64::MAX, "edge": (i64::MAX as u64) + 1, "min": i64::MIN, "max": i64::MAX, "nested": [{"n": u64::MAX - 1}], "f": 1e19, "g": 18446744073709551615.0, "z": -0.0})),
+    ];
 
     // ---- Request
     for more in flags {
@@ -271,7 +280,7 @@ fn main() {
     for more in tri("more", json!(true)) {
         for oneway in tri("oneway", json!(false)) {
             for upgrade in tri("upgrade", json!(true)) {
-                for p in tri("parameters", json!({"x": [1, null]})) {
+                for p in tri("parameters", json!({"x": [1, null], "big": u64::MAX, "edge": 9223372036854775808u64, "min": i64::MIN, "f": 1e19})) {
                     for m in methods {
                         let mut o = serde_json::Map::new();
                         o.insert("method".into(), json!(m));
@@ -309,7 +318,7 @@ fn main() {
     }
     for cont in tri("continues", json!(true)) {
         for err in tri("error", json!("a.b.E")) {
-            for p in tri("parameters", json!({"x": [1, null]})) {
+            for p in tri("parameters", json!({"x": [1, null], "big": u64::MAX, "edge": 9223372036854775808u64, "min": i64::MIN, "f": 1e19})) {
                 let mut o = serde_json::Map::new();
                 for (k, v) in [("continues", &cont), ("error", &err), ("parameters", &p)] {
                     if let Some(v) = v {
